@@ -4,7 +4,7 @@ from __future__ import annotations
 import ast
 from fractions import Fraction
 
-from ..astu import U, S, has, walk_shallow, call_name, calls_in, kwarg, linform, lin_str, monomial, mono_str, param_names, fold, NotLiteral, names_in
+from ..astu import U, S, has, same, walk_shallow, call_name, calls_in, kwarg, linform, lin_str, monomial, mono_str, param_names, fold, NotLiteral, names_in
 from ..core import AnalysisError, Mutant, Rule, Twin
 from ..dims import V, opaque, mk_dim, dim_str, units_ns, constants_ns, si_value, lx_const
 from ..dimrun import run
@@ -210,7 +210,7 @@ def r4_positional_named(ctx):
             ctx.check(i < len(names) and nm == names[i], a, "arg[%d]=%s" % (i, names[i] if i < len(names) else "?"),
                       "positional argument %d handed to %s is `%s`; %s.argument_names[%d] is %r" % (i, cls, U(e), cls, i, names[i] if i < len(names) else None), node=e)
         ret = [n for n in walk_shallow(fn) if isinstance(n, ast.Return)][-1]
-        ctx.check(S(ret.value) == "MassAction%sargs,unique_keys" % cls, a, "wrapped-in-MassAction", "as_RateExpr must return MassAction(%s(args, unique_keys))" % cls, node=ret)
+        ctx.check(same(ret.value, "MassAction(%s(args, unique_keys))" % cls, scope=fn), a, "wrapped-in-MassAction", "as_RateExpr must return MassAction(%s(args, unique_keys))" % cls, node=ret)
     # helper methods compute what their name says
     f = ctx.func(ARR, "ArrheniusParam.Ea_over_R")
     ctx.check(has(f, "return self.Ea / _get_R(constants, units)"), ARR + ":ArrheniusParam.Ea_over_R", "Ea/R", "Ea_over_R must be self.Ea / R", node=f)
@@ -294,7 +294,7 @@ def r6_thermo(ctx):
     a = THERMO + ":MassActionEq.active_conc_prod"
     ctx.check(has(f, "for exp_factor, stoichs in [(1, equilibrium.prod), (-1, equilibrium.reac)]:"), a, "prod:+,reac:-", "products must enter with +nu and reactants with -nu", node=f)
     ups = [s for s in ast.walk(f) if isinstance(s, (ast.Assign, ast.AugAssign)) and "variables[k]" in U(s)]
-    ok = len(ups) == 2 and all(S(u.value) == "variables[k]**exp_factor*v" for u in ups) and any(isinstance(u, ast.AugAssign) and isinstance(u.op, ast.Mult) for u in ups)
+    ok = len(ups) == 2 and all(same(u.value, "variables[k] ** (exp_factor * v)", scope=f) for u in ups) and any(isinstance(u, ast.AugAssign) and isinstance(u.op, ast.Mult) for u in ups)
     ctx.check(ok, a, "factor=c**(sign*nu)", "each factor must be variables[k] ** (exp_factor * v), multiplied up", node=f)
     f = ctx.func(THERMO, "GibbsEqConst.eq_const")
     ret = [n for n in walk_shallow(f) if isinstance(n, ast.Return)][-1]
@@ -309,6 +309,58 @@ def r6_thermo(ctx):
     ctx.check(ok, THERMO + ":MassActionEq.equilibrium_equation", "K-Q", "equilibrium_equation must be eq_const - active_conc_prod", node=ret)
 
 
+def _exp_atom(exps):
+    def atom(n):
+        if n in exps:
+            return "EXP%d" % exps.index(n)
+        if isinstance(n, ast.Call) and isinstance(n.func, ast.Attribute) and n.func.attr == "order" and "reaction" in U(n.func.value):
+            return "order"
+        return U(n)
+    return atom
+
+
+def r7_class_formulas(ctx):
+    """Arrhenius: A*exp(-Ea_over_R/T); Eyring: c0*T*exp(-c1/T)*conc0**(1-order); EyringHS: kB/h*T*exp(-(dH-T*dS)/(R*T))*c0**(1-order)"""
+    m = ctx.mod(RATES)
+    for cq, want_mono, want_exps in (
+        ("Arrhenius", (F1, {"A": {"1": F1}, "EXP0": {"1": F1}}), [(-F1, {"Ea_over_R": {"1": F1}, "variables['temperature']": {"1": -F1}})]),
+        ("Eyring", (F1, {"c0": {"1": F1}, "T": {"1": F1}, "EXP0": {"1": F1}, "conc0": {"1": F1, "order": -F1}}), [(-F1, {"c1": {"1": F1}, "T": {"1": -F1}})]),
+        ("EyringHS", (F1, {"kB": {"1": F1}, "h": {"1": -F1}, "T": {"1": F1}, "EXP0": {"1": F1}, "c0": {"1": F1, "order": -F1}}), None),
+    ):
+        fn = ctx.func(RATES, cq + ".__call__")
+        a = "%s:%s.__call__" % (RATES, cq)
+        ret = [n for n in walk_shallow(fn) if isinstance(n, ast.Return)][-1]
+        exps = [n for n in ast.walk(ret.value) if isinstance(n, ast.Call) and (call_name(n) or "").endswith(".exp")]
+        at = _exp_atom(exps)
+        try:
+            mm = monomial(ret.value, atom=at)
+        except Exception as e:
+            ctx.violation(a, "formula", "%s.__call__ is not a product form: %s" % (cq, e), node=ret)
+            continue
+        ctx.check(mm == want_mono, a, "formula", "%s must evaluate to %s; found %s (a flipped exponent of the standard concentration changes the rate by conc0**(2*(order-1)))" % (
+            cq, mono_str(want_mono), mono_str(mm)), node=ret, found=mono_str(mm))
+        if want_exps is not None:
+            got = [monomial(e.args[0], atom=at) for e in exps]
+            ctx.check(got == want_exps, a, "exponent", "%s exponent must be %s; found %s" % (cq, [mono_str(x) for x in want_exps], [mono_str(x) for x in got]), node=ret)
+        else:
+            # -(dH - T*dS) / (R*T)
+            e = exps[0].args[0] if exps else None
+            ok = e is not None
+            if ok:
+                c, p = monomial(e, atom=at)
+                num_ = [k for k in p if " - " in k]
+                ok = c == -1 and len(num_) == 1 and p[num_[0]] == {"1": F1} and {k: v for k, v in p.items() if k != num_[0]} == {"R": {"1": -F1}, "T": {"1": -F1}} \
+                    and linform(ast.parse(num_[0], mode="eval").body) == {"dH": F1, "T * dS": -F1}
+            ctx.check(ok, a, "exponent", "EyringHS exponent must be -(dH - T*dS)/(R*T); found %s" % (U(e) if e is not None else None), node=ret)
+    fn = ctx.func(RATES, "Eyring.__call__")
+    ctx.check(has(fn, "T = variables['temperature']") and has(fn, "c0, c1, conc0 = self.all_args(variables, backend=backend, **kwargs)"), RATES + ":Eyring.__call__", "bindings", "Eyring must bind (c0, c1, conc0) from its arguments and T from variables['temperature']", node=fn)
+    fn = ctx.func(RATES, "EyringHS.__call__")
+    ctx.check(has(fn, "T, R, kB, h = [variables[k] for k in self.parameter_keys]") and has(fn, "dH, dS, c0 = self.all_args(variables, backend=backend, **kwargs)"), RATES + ":EyringHS.__call__", "bindings",
+              "EyringHS must bind (dH, dS, c0) from its arguments and (T, R, kB, h) from its parameter keys in order", node=fn)
+    pk = _class_tuple(m, "EyringHS", "parameter_keys")
+    ctx.check(pk == ("temperature", "molar_gas_constant", "Boltzmann_constant", "Planck_constant"), RATES + ":EyringHS", "parameter-keys-order", "EyringHS.parameter_keys = %s" % (pk,), node=m.cls("EyringHS"))
+
+
 RULES = [
     Rule("C16-R1", r1_backend_threading, 28, "backend threading at every nested evaluation site"),
     Rule("C16-R2", r2_formula_dims, 14, "Arrhenius/Eyring formulas and R, kB/h in both constant modes (E2)"),
@@ -316,6 +368,7 @@ RULES = [
     Rule("C16-R4", r4_positional_named, 14, "positional vs named arguments; Expr.arg index discipline"),
     Rule("C16-R5", r5_operator_table, 26, "operator table"),
     Rule("C16-R6", r6_thermo, 5, "equilibrium expressions"),
+    Rule("C16-R7", r7_class_formulas, 8, "Arrhenius / Eyring / EyringHS class formulas as monomials"),
 ]
 
 MUTANTS = [
@@ -343,6 +396,9 @@ MUTANTS = [
 ]
 
 MUTANTS += [
+    Mutant("eyring-conc0-exponent-flipped", [(RATES, 'conc0 ** (1 - kwargs["reaction"].order())', 'conc0 ** (kwargs["reaction"].order() - 1)')], "C16-R7", "Eyring"),
+    Mutant("arrhenius-class-sign", [(RATES, 'return A * backend.exp(-Ea_over_R / variables["temperature"])', 'return A * backend.exp(Ea_over_R / variables["temperature"])')], "C16-R7", "Arrhenius"),
+    Mutant("eyringhs-entropy-sign", [(RATES, "* backend.exp(-(dH - T * dS) / (R * T))", "* backend.exp(-(dH + T * dS) / (R * T))")], "C16-R7", "EyringHS"),
     Mutant("units-Joule", [(ARR, "            J = units.joule\n", "            J = units.Joule\n")], "C16-R2", "missing-attribute"),
     Mutant("subclass-from-callback-drops-backend", [(RATES, "                    self.all_args(variables, backend=backend),\n", "                    self.all_args(variables),\n")], "C16-R1", "subclass_from_callback"),
 ]
